@@ -3,6 +3,7 @@ C08 — Formatting renders the truncated value in the requested shape.
 `genNewFormatSpec v` is the regenerated `newFormatSpec` of version v (tie 1).
 -/
 import Sqroot.Proofs.Format
+import Sqroot.Proofs.EndToEnd
 namespace Sqroot.Props.C08
 open Sqroot.Model Sqroot.Proofs
 
@@ -65,5 +66,21 @@ theorem width_never_truncates (field : String) (w : Nat) (minus : Bool) :
   pad_length field w minus
 
 example : Spec.render 'f'.toNat (some 3) (some 9) true 1 [1, 4, 1, 4, 2, 1] = "1.414    " := by decide
+
+/-- end to end (v3 `Format`/`Sprintf` on a Number): composition of the read path through any chain
+of `WithSignificant` views (the only view operation that yields Numbers) over the memoizer with the
+formatter — the text is the rendering of the window's digits, the memoised source is unchanged.
+`numberDigits … 20000` is the digit string cut at 20 000 digits; the hypothesis on the precision
+keeps the directive below that cut (the rendering only looks at the digits the rule asks for). -/
+theorem format_end_to_end (c : MemoCfg) (m : Memo) (b v : Val3) (limits : List Int) (e : Int)
+    (hb : b = .opqN .memo e ∨ b = .fnum .memo e)
+    (hv : applyChain3 b (limits.map .withSig) = some v) (hnz : v.isZero = false)
+    (hd : ∀ p, m.src.digit p ≤ 9)
+    (hfit : Fits c m.src (Spec.winOf ((limits.map ViewOp.withSig).map toSpecOp)) 20000)
+    (verb : Nat) (prec width : Option Nat) (minus : Bool) (hprec : prec.getD 16 + e.natAbs < 10000) :
+    ∃ m' txt, format3 c m v verb prec width minus = some (.ok (m', txt)) ∧ m'.src = m.src ∧
+      txt = Spec.render verb prec width minus e
+              (numberDigits m.src (Spec.winOf ((limits.map ViewOp.withSig).map toSpecOp)) 20000) :=
+  Sqroot.Proofs.format_end_to_end c m b v limits e hb hv hnz hd hfit verb prec width minus hprec
 
 end Sqroot.Props.C08
